@@ -147,6 +147,7 @@ type ConnScript struct {
 	SrvCaps        []int // short-read caps at the server endpoint, cycled
 	SrvEOFWithData bool  // the server endpoint reads the last octets together with io.EOF when the FIN is already there
 	SrvFaults      ConnFaults
+	CliFailWriteAt int // the client endpoint's n-th Write fails, and every later one (0 = never): the peer's network breaks under a real client
 	Cut            int // cut the client's stream after this many octets (<0: no cut)
 	CutKind        int
 	AwaitTO        Dur // bound on every wait for replies (fake time)
